@@ -196,11 +196,24 @@ def check(case, rec):
             if not math.isclose(float(got), float(want), rel_tol=1e-12):
                 bad(kind, "%s %r, matrix gives %r" % (name, got, want))
     elif kind == "summarize":
-        from biom.cli.table_summarizer import _summarize_table
+        from biom.cli.table_summarizer import summarize_table
         qual, obs_mode = case["flag"], case["flag2"]
         rec.cls("summarize:%s%s" % ("qual" if qual else "quant",
                                     "+obs" if obs_mode else ""))
-        text = _summarize_table(t, qualitative=qual, observations=obs_mode)
+        # the real command, on a JSON file of the table (keeps the metadata
+        # as it is), report to a file or to standard output
+        with tempfile.TemporaryDirectory(prefix="vf-c19-", dir=TMP) as d:
+            p = os.path.join(d, "t.biom")
+            open(p, "w", encoding="utf8").write(t.to_json("vf"))
+            args = ["-i", p] + (["--qualitative"] if qual else []) + \
+                (["--observations"] if obs_mode else [])
+            if case["n"] % 2:
+                o = os.path.join(d, "summary.txt")
+                run_cmd(summarize_table, args + ["-o", o])
+                text = open(o, encoding="utf8").read()
+            else:
+                text = run_cmd(summarize_table, args)
+                text = text[:-1] if text.endswith("\n") else text
         M = D.T if obs_mode else D
         unit_ids = ref.obs if obs_mode else ref.samp
         counts = (M != 0).sum(axis=0).astype(float) if qual else M.sum(axis=0)
